@@ -226,6 +226,18 @@ func (i *Index) AddDesc(d Descriptor, opts ...IndexOpt) {
 			}
 		}
 	}
+	// an entry that already has the tag or referrer is replaced first,
+	// updating an untagged entry of the same digest that is listed before it would leave two entries with the same tag
+	if tag != "" || referrer != "" {
+		for mi, md := range i.Manifests {
+			if md.Digest == d.Digest && md.Annotations != nil &&
+				(tag == "" || md.Annotations[AnnotRefName] == tag) &&
+				(referrer == "" || md.Annotations[AnnotReferrerSubject] == referrer) {
+				i.Manifests[mi] = d
+				return
+			}
+		}
+	}
 	// search for matching or compatible entry
 	for mi, md := range i.Manifests {
 		if md.Digest == d.Digest {
